@@ -409,7 +409,7 @@ def gen_fp_cases(rng, count, big):
             size = rng.range(64, PAGE + 100)
         elif window > (1 << 19):
             # a 1 MB window is never left by inputs of this size (one map / one growing buffer); thorough adds a few that are
-            size = window + rng.range(1, 3 * PAGE) if (big and rng.chance(1, 12)) else rng.range(PAGE, 10 * PAGE)
+            size = window + rng.range(1, 3 * PAGE) if (big and rng.chance(1, 30)) else rng.range(PAGE, 10 * PAGE)
         elif r < 80:
             size = rng.choice([window - 3, window, window + 5, 2 * window, 2 * window + PAGE, rng.range(PAGE, 5 * min(window, 3 * PAGE))])
         else:
@@ -449,6 +449,25 @@ def gen_rc_cases(rng, count, big):
         cases.append(("RC %s %s %s %s %s %s" % (src, hexs(comp), ",".join("%x" % c for c in chunks) or "-", ",".join("%x" % c for c in reqs),
                                                 ",".join(p.hex() or "-" for p in plains), ",".join("%x" % len(c) for c in comps)),
                       "%x %x 0" % (len(plain), h)))
+    return cases
+
+
+def gen_tk_cases(rng, count):
+    """TokenIter over in-memory strings; expected tokens computed from the property text (split / words)"""
+    cases = []
+    for _ in range(count):
+        n = rng.choice([0, 1, 2, 5, rng.range(0, 60), rng.range(0, 400)])
+        alphabet = rng.choice([b" ab", b" \t\nxy", b"a \t", b"  \x00z", bytes(range(256))])
+        data = bytes(rng.choice(alphabet) for _ in range(n))
+        mode = rng.choice("BSA")
+        if mode == "B":
+            toks = re.split(rb"[ \t\n\v\f\r]+", data)
+            toks = [x for x in toks if x]
+        elif mode == "S":
+            toks = data.split(b" ")
+        else:
+            toks = [x for x in re.split(rb"[ \t]+", data) if x]
+        cases.append(("TK %s %s" % (mode, hexs(data)), "|".join(fmt_bytes(x) for x in toks) if toks else "none"))
     return cases
 
 
@@ -529,7 +548,7 @@ def run(ctx):
     os.environ["C18_SCRATCH"] = ctx.scratch
     corpus = corpus_cases()
     ctx.count("corpus_cases", len(corpus))
-    fp_cases = [c for c in corpus if c.startswith("FP ")] + gen_fp_cases(rng, ctx.pick(260, 3000), big)
+    fp_cases = [c for c in corpus if c.startswith("FP ")] + gen_fp_cases(rng, ctx.pick(260, 2000), big)
     rc = gen_rc_cases(rng, ctx.pick(40, 400), big)
     lap("generate")
     impl = vlib.compile_driver("c18_driver", DRIVER_SRC, libs=("kenlm_util",))
@@ -561,6 +580,9 @@ def run(ctx):
     # ReadCompressed::Read with random request sizes: plaintext reproduced, 0 for ever after the end
     rc_out = run_parallel(impl, [c for c, _ in rc], jobs=4)
     rc_fail = [(c, o, e) for (c, e), o in zip(rc, rc_out) if o != e]
+    tk = gen_tk_cases(rng, ctx.pick(400, 4000))
+    tk_out = vlib.run_lines(impl, [c for c, _ in tk])
+    tk_fail = [(c, o, e) for (c, e), o in zip(tk, tk_out) if o != e]
     lap("read_compressed")
     # --- correspondence with the extracted model (model of the repaired code)
     mismatches = []
@@ -575,6 +597,11 @@ def run(ctx):
             if len(mt) != len(it) or not all(tokens_equal(x, y) for x, y in zip(mt, it)):
                 k = next((j for j, (x, y) in enumerate(zip(mt, it)) if not tokens_equal(x, y)), min(len(mt), len(it)))
                 mismatches.append((c, a, b, k))
+        tk_model = vlib.run_lines(model, [c for c, _ in tk], env=MODEL_ENV, prefix=MODEL_PREFIX)
+        tk_mismatch = [(c, o, m) for (c, _), o, m in zip(tk, tk_out, tk_model) if o != m]
+        ctx.coverage["tokeniter_model_mismatches"] = len(tk_mismatch)
+        if tk_mismatch:
+            mismatches.append((tk_mismatch[0][0], tk_mismatch[0][1], tk_mismatch[0][2], 0))
         rc_model = run_parallel(model, [c for c, _ in rc], env=MODEL_ENV, prefix=MODEL_PREFIX, jobs=12)
         rc_mismatch = [(c, o, m) for (c, _), o, m in zip(rc, rc_out, rc_model) if o != m]
         ctx.coverage["read_compressed_model_mismatches"] = len(rc_mismatch)
@@ -592,7 +619,7 @@ def run(ctx):
     except vlib.ModelBroken as e:
         model_broken = str(e)
     lap("model")
-    ctx.count("evaluations", len(fp_cases) + len(rc))
+    ctx.count("evaluations", len(fp_cases) + len(rc) + len(tk))
     ctx.coverage["distinct_nontrivial"] = len(nontrivial)
     ctx.coverage["rule"] = ("case = (input bytes, backend, min_buffer, read() length list, operation string); inputs are laid out so that token, "
                             "line and number ends fall on and next to multiples of 4096 and of the window size, with very long tokens/lines, "
@@ -618,7 +645,9 @@ def run(ctx):
                                         "how": "./check C18 --replay <this file>  (feeds the case to harness/drivers/c18_driver.cc and judges it with the whole-string oracle)"})
     for c, o, e in rc_fail[:3]:
         ctx.report("spec:read_compressed", "ReadCompressed::Read did not reproduce the plaintext (got '%s', expected '%s')" % (o, e), {"case": c, "impl_output": o, "expected": e})
-    if not spec_fail and not rc_fail:
+    for c, o, e in tk_fail[:3]:
+        ctx.report("spec:tokeniter:" + c.split()[1], "util::TokenIter returned %s, the string splits into %s" % (o[:200], e[:200]), {"case": c, "impl_output": o, "expected": e})
+    if not spec_fail and not rc_fail and not tk_fail:
         if mismatches:
             c, a, b, k = mismatches[0]
             ctx.report("correspondence:filepiece", "model and implementation disagree (the specification oracle accepts the implementation's answer)",
@@ -627,7 +656,8 @@ def run(ctx):
         elif model_broken:
             ctx.report("model-broken", "executable model no longer builds", {"log": model_broken[-2000:]}, found=False)
         ctx.report_proof(pres)
-    ctx.coverage["spec_oracle_failures"] = len(spec_fail) + len(rc_fail)
+    ctx.coverage["spec_oracle_failures"] = len(spec_fail) + len(rc_fail) + len(tk_fail)
+    ctx.coverage["tokeniter_cases"] = len(tk)
     ctx.coverage["correspondence_mismatches"] = len(mismatches)
 
 
@@ -636,7 +666,7 @@ def replay(ctx, obj):
     impl = vlib.compile_driver("c18_driver", DRIVER_SRC, libs=("kenlm_util",))
     c = obj["replay"]["case"]
     o = vlib.run_lines(impl, [c])[0]
-    if c.startswith("RC "):
+    if c.startswith("RC ") or c.startswith("TK "):
         print("case:", c[:200], "\nimpl:", o, "\nexpected:", obj["replay"].get("expected"))
         return 0 if o == obj["replay"].get("expected") else 1
     bad = judge_fp(c, o)
